@@ -40,6 +40,8 @@ def register(db):
     register_end_tag(db)
     register_start_namespaces(db)
     register_set_data(db)
+    register_encode_data(db)
+    register_set_data_tail(db)
     P = ["C03"]
     # abstract SAX callbacks: their calls are recorded on the ghost trace
     for m in ("start_document", "end_document", "start_element", "end_element", "set_characters",
@@ -216,6 +218,22 @@ def register_set_data(db):
         ))
 
 
+def register_set_data_tail(db):
+    """set_data after a child element was closed: the text is the *tail* of that child (written after its end tag), it
+    must not be written as element content at this point."""
+    ENC = "uf('encode_data', 'str|None', data)"
+    db.add(Contract(
+        f"{EH}.set_data", variant="tail-position",
+        params={"self": handler(1, None), "data": "opaque:Any"},
+        requires=["self.in_tail == True"],
+        ensures=[("text-is-kept-as-the-tail", f"implies({ENC} is not None and {ENC} != '', self.tail == {ENC} and called('EventHandler.set_characters') == 0)"),
+                 ("no-text-leaves-the-tail-as-it-was", f"implies({ENC} is None or {ENC} == '', self.tail == old(self.tail) and called('EventHandler.set_characters') == 0)"),
+                 ("still-in-tail-position", "self.in_tail == True")],
+        raises={"ConverterError": True}, modifies=["self.ns_map", "self.in_tail", "self.tail", "self.pending_tag", "self.attrs"],
+        properties=["C03"],
+    ))
+
+
 def register_end_tag(db):
     """end_tag closes exactly the innermost scope: the element is ended once with the expanded name of its qname,
     the namespace context loses its top entry and the handler's current map is the parent's scope *object* again
@@ -244,3 +262,32 @@ def register_end_tag(db):
                                "called('EventHandler.end_prefix_mapping') == 1 and call_arg('EventHandler.end_prefix_mapping', 1) == prefix")])],
             properties=P,
         ))
+
+
+def register_encode_data(db):
+    """EventHandler.encode_data: text content is written as given, None and an empty token list are "no content" (the
+    element is written as nil), and every other value is serialized by the converter *with the element's own in-scope
+    prefix map* - so the prefix of a QName value is looked up (or allocated) in the scope the element declares."""
+    CF = "xsdata.formats.converter:ConverterFactory"
+    SER = "ConverterFactory.serialize"
+    db.opaque_isinst[("Any", "str")] = "uf"
+    db.opaque_isinst[("Any", "list")] = "uf"
+    db.add(Contract(
+        f"{EH}.encode_data", variant="non-text-value",
+        params={"self": handler(2, None), "data": "opaque:Any"},
+        requires=["not isinstance(data, str)", "not isinstance(data, list)"],
+        ensures=[("serialized-once-with-the-element-own-scope",
+                  f"called('{SER}') == 1 and call_arg('{SER}', 1) is data and call_kwarg('{SER}', 'ns_map') is self.ns_map"),
+                 ("result-is-what-the-converter-wrote", f"result == call_result('{SER}')")],
+        raises={"ConverterError": True}, returns="str|None", modifies=["self.ns_map"], properties=["C03"],
+    ))
+    db.add(Contract(
+        f"{EH}.encode_data", variant="text-or-nothing",
+        params={"self": handler(2, None), "data": "str|None"},
+        ensures=[("kept-as-given", "result == data")], raises={}, returns="str|None", properties=["C03"],
+    ))
+    db.add(Contract(
+        f"{EH}.encode_data", variant="empty-token-list",
+        params={"self": handler(2, None), "data": lambda mk, base: mk.plist([])},
+        ensures=[("no-content", "result is None")], raises={}, returns="str|None", properties=["C03"],
+    ))
